@@ -376,3 +376,43 @@ Proof.
   intros Hi. unfold legal_sample. rewrite !andb_true_iff. intros [H1 H2]. split; [exact H1|].
   rewrite forallb_forall in *. intros p Hp. apply has_peer_In. apply Hi. apply has_peer_In. apply H2. exact Hp.
 Qed.
+
+Lemma decode_all_app a b : decode_all (a ++ b) = decode_all a ++ decode_all b.
+Proof.
+  induction a as [|s a IH]; cbn [app decode_all]; [reflexivity|].
+  destruct (deserialize s); cbn [app]; rewrite IH; reflexivity.
+Qed.
+
+Lemma collapse_into_app sel a b : collapse_into sel (a ++ b) = collapse_into (collapse_into sel a) b.
+Proof. unfold collapse_into. apply fold_left_app. Qed.
+
+(* n at least the number of members offered: nothing is cut, no window is skipped *)
+Lemma sample_run_full orc : forall n sel,
+  Z.of_nat (length sel) + Z.of_nat (length (concat orc)) <= n ->
+  sample_run n sel orc = Some (collapse_into sel (decode_all (concat orc))).
+Proof.
+  induction orc as [|ss rest IH]; intros n sel H; cbn [sample_run concat].
+  - reflexivity.
+  - cbn [concat] in H. rewrite app_length in H.
+    destruct (Z.ltb_spec (Z.of_nat (length sel)) n) as [Hlt|Hge].
+    + destruct (Z.leb_spec (Z.of_nat (length ss)) (n - Z.of_nat (length sel))) as [Hb|Hb]; [|lia].
+      rewrite IH.
+      * rewrite decode_all_app, collapse_into_app. reflexivity.
+      * pose proof (collapse_into_length (decode_all ss) sel). pose proof (decode_all_length ss). lia.
+    + assert (Hz : length (ss ++ concat rest) = 0%nat) by (rewrite app_length; lia).
+      apply length_zero_iff_nil in Hz. rewrite Hz. reflexivity.
+Qed.
+
+(* the deterministic full read is what the loop computes, for any window order, once n is at
+   least the number of members offered *)
+Theorem full_read_is_loop c d h t n orc :
+  (forall x, In x (concat orc) <-> In x (visible_members c d h t)) ->
+  Z.of_nat (length (concat orc)) <= n ->
+  exists res, sample_run n [] orc = Some res /\ nodup_ident res = true /\
+              forall p, In p res <-> In p (collapse (decode_all (visible_members c d h t))).
+Proof.
+  intros Hm Hn. exists (collapse (decode_all (concat orc))). split; [|split].
+  - apply (sample_run_full orc n []). cbn [length]. lia.
+  - apply collapse_nodup.
+  - apply collapse_ext. intros p. rewrite !decode_all_In. split; intros [x [Hx Hd]]; exists x; (split; [apply Hm; exact Hx | exact Hd]).
+Qed.
